@@ -4,6 +4,7 @@ import vcommon as V
 import readergen as RG
 import tracerun as TR
 import gtref, arc
+import maincommon as MC
 
 LEVEL = "model_checking"
 ASSUMPTIONS = ["caller-supplied read callbacks fill the buffer unless at end of input (a short read is a failure by design); "
@@ -166,6 +167,12 @@ def run(tier, seed, ev):
         t4 = time.time()
         v2, g2 = TR.validate_all("Trace_Reader", "Trace_Reader", res2, ev, "C16", xmx="6g", timeout=1500 if tier == "quick" else 6000)
         t5 = time.time()
+        # the tool itself: archive named by path, "-" with the file on standard input, "-" with a pipe (Cli!Main, Trace_Cli!TInvoke)
+        lha = V.lha_binary("san")
+        hdrv = V.build_driver("header_drv", "san")
+        inv = MC.invoke_events(rng, sc, lha, hdrv, tier, ev,
+                               prefixers=(lambda r: clean_prefix(r, r.choice([1, 23, 24, 25, 1000, 30000, 255 * 1024 - 1])), decoy_prefix))
+        v3, g3 = MC.validate(inv, sc, ev, "C16")
         ev.set("phase_seconds", {"stream_run": round(t1 - t0, 1), "stream_validate": round(t2 - t1, 1), "reference_runs": round(t3 - t2, 1),
                                  "reader_run": round(t4 - t3, 1), "reader_validate": round(t5 - t4, 1)})
         for f in mcs:
@@ -173,13 +180,13 @@ def run(tier, seed, ev):
             ev.tlc(r)
             if r.violation:
                 raise V.HarnessError("InputStream bounded model violates %s" % r.violation)
-    viols = v1 + v2
+    viols = v1 + v2 + v3
     for a, p in bad:
         d = V.replay_dir("C16", "refcrash-" + os.path.basename(a))
         shutil.copy(a, d)
         open(os.path.join(d, "stderr.txt"), "wb").write(p.stderr or b"")
         viols.append({"replay": d, "msg": "reference run of %s did not complete: %s" % (a, (p.stderr or b"").decode(errors="replace")[-600:])})
-    ev.add("traces_validated_against_impl", g1 + g2)
+    ev.add("traces_validated_against_impl", g1 + g2 + g3)
     ev.set("stream_level_executions", len(sj))
     ev.set("reader_level_executions", len(rj))
     ev.sample(sj[0][:300])
@@ -190,7 +197,7 @@ def run(tier, seed, ev):
         if os.path.exists(jf):
             for ln in open(jf):
                 p = ln.split()
-                for f in (p[1], p[2]):
+                for f in (p[1:3] if len(p) > 2 and not ln.startswith("{") else []):
                     if os.path.exists(f) and os.path.getsize(f) < 5000000:
                         shutil.copy(f, v["replay"])
     shutil.rmtree(sc, ignore_errors=True)
